@@ -49,9 +49,10 @@ def get_boolean_attribute(attribute_list, name, default_value=None):
         requested attribute is not found or has a non-boolean value.
     """
     attribute_value = get_attribute(attribute_list, name)
-    if not attribute_value or not attribute_value.expression.has_field(
-        "boolean_constant"
-    ):
+    # A string value has no expression at all.
+    if not attribute_value or not ir_data_utils.reader(
+        attribute_value
+    ).expression.has_field("boolean_constant"):
         return default_value
     return attribute_value.expression.boolean_constant.value
 
@@ -70,9 +71,11 @@ def get_integer_attribute(attribute_list, name, default_value=None):
         requested attribute is not found or has a non-integer value.
     """
     attribute_value = get_attribute(attribute_list, name)
+    # A string value has no expression at all.
     if (
         not attribute_value
-        or attribute_value.expression.type.which_type != "integer"
+        or ir_data_utils.reader(attribute_value).expression.type.which_type
+        != "integer"
         or not is_constant(attribute_value.expression)
     ):
         return default_value
